@@ -256,3 +256,116 @@ func c15Sibling(c *Ctx) {
 	}
 	rep.Count("gateway_sibling_failure:prompt")
 }
+
+// c15ShortService: a federated service whose key lookup answers with fewer objects than keys (or none): the
+// gateway must fail the request with an error; a panic in one of its goroutines would end the process.
+type c15FU struct {
+	Id int64
+}
+
+func c15ShortService(c *Ctx) {
+	rep := c.Rep
+	for _, drop := range []int{1, 3} {
+		cs := map[string]interface{}{"gateway": "a service returns fewer objects than keys", "dropped": drop}
+		s1 := schemabuilder.NewSchemaWithName("s1")
+		u1 := s1.Object("c15FU", c15FU{}, schemabuilder.FetchObjectFromKeys(func(args struct{ Keys []*c15FU }) []*c15FU { return args.Keys }))
+		u1.Key("id")
+		s1.Query().FieldFunc("users", func() []*c15FU { return []*c15FU{{Id: 1}, {Id: 2}, {Id: 3}} })
+		s1.Mutation()
+		s2 := schemabuilder.NewSchemaWithName("s2")
+		d := drop
+		u2 := s2.Object("c15FU", c15FU{}, schemabuilder.FetchObjectFromKeys(func(args struct{ Keys []*c15FU }) []*c15FU {
+			if d >= len(args.Keys) {
+				return []*c15FU{}
+			}
+			return args.Keys[:len(args.Keys)-d]
+		}))
+		u2.Key("id")
+		u2.FieldFunc("cool", func(u *c15FU) bool { return u.Id%2 == 0 })
+		s2.Query().FieldFunc("other", func() int64 { return 1 })
+		s2.Mutation()
+		execs := map[string]federation.ExecutorClient{}
+		for name, sb := range map[string]*schemabuilder.Schema{"s1": s1, "s2": s2} {
+			srv, err := federation.NewServer(sb.MustBuild())
+			if err != nil {
+				rep.Fail("harness_error", nil, cs, map[string]interface{}{"error": err.Error()})
+				return
+			}
+			execs[name] = &federation.DirectExecutorClient{Client: srv}
+		}
+		ctx, cancel := context.WithCancel(context.Background())
+		e, err := federation.NewExecutor(ctx, execs, &federation.SchemaSyncerConfig{SchemaSyncer: federation.NewIntrospectionSchemaSyncer(ctx, execs, nil)})
+		if err != nil {
+			cancel()
+			rep.Fail("harness_error", nil, cs, map[string]interface{}{"error": err.Error()})
+			return
+		}
+		q, err := graphql.Parse("{ users { id cool } }", map[string]interface{}{})
+		if err != nil {
+			cancel()
+			rep.Fail("harness_error", nil, cs, map[string]interface{}{"error": err.Error()})
+			return
+		}
+		// the request runs in-process: a panic in a goroutine of the gateway ends the harness, which the check
+		// reports with this case as the one in flight
+		Inflight(cs)
+		done := make(chan error, 1)
+		go func() {
+			defer func() {
+				if p := recover(); p != nil {
+					done <- fmt.Errorf("panic: %v", p)
+				}
+			}()
+			_, _, err := e.Execute(ctx, q, nil)
+			done <- err
+		}()
+		select {
+		case err := <-done:
+			if err == nil || strings.HasPrefix(err.Error(), "panic:") {
+				rep.Fail("impl_ne_spec", nil, cs, map[string]interface{}{"what": "the gateway did not answer a short result of a service with an error", "error": fmt.Sprint(err)})
+			}
+		case <-time.After(5 * time.Second):
+			rep.Fail("impl_ne_spec", nil, cs, map[string]interface{}{"what": "the gateway did not return after a service answered with fewer objects than keys"})
+		}
+		InflightDone()
+		cancel()
+		rep.Count("gateway_short_service")
+	}
+}
+
+// c15ConnGone: websocket histories in which a resolver reports a cancellation itself, or the client goes away
+// while runs are in flight: the connection keeps answering (or ends), ServeJSONSocket returns, nothing is left behind.
+func c15ConnGone(c *Ctx) {
+	rep := c.Rep
+	histories := [][]cnAction{
+		{{Op: "fail", Arg: 5}, {Op: "subscribe", ID: 1, Query: 4}, {Op: "pause", Arg: 2000}, {Op: "echo", ID: 2}, {Op: "subscribe", ID: 2, Query: 0}, {Op: "settle"}, {Op: "echo", ID: 3}},
+		{{Op: "subscribe", ID: 1, Query: 4}, {Op: "settle"}, {Op: "fail", Arg: 5}, {Op: "settle"}, {Op: "echo", ID: 2}, {Op: "heal"}, {Op: "subscribe", ID: 3, Query: 0}, {Op: "settle"}},
+		{{Op: "fail", Arg: 5}, {Op: "subscribe", ID: 1, Query: 4}, {Op: "subscribe", ID: 2, Query: 4}},
+	}
+	for i, acts := range histories {
+		for _, early := range []bool{false, true} {
+			cs := cnCase{Seed: uint64(40 + i), Actions: acts, CloseEarly: early, SlowUs: 300 * i}
+			res := cnRun(cs)
+			if res.Problem != "" {
+				rep.Fail("impl_ne_spec", nil, cs, map[string]interface{}{"what": "websocket, a resolver reports a cancellation / the client goes away: " + res.Problem})
+				return
+			}
+			// every echo was answered
+			asked, answered := 0, 0
+			for _, e := range res.Events {
+				if m, ok := e.Data.(map[string]interface{}); ok && m["type"] == "echo" {
+					if e.Kind == "in" {
+						asked++
+					} else if e.Kind == "write" {
+						answered++
+					}
+				}
+			}
+			if !early && answered < asked {
+				rep.Fail("impl_ne_spec", nil, cs, map[string]interface{}{"what": "websocket: the connection stopped answering after a resolver reported a cancellation", "echo_sent": asked, "echo_answered": answered})
+				return
+			}
+			rep.Count("conn_gone_histories")
+		}
+	}
+}
